@@ -1,7 +1,10 @@
 """C10 fragments: which value each seeding call receives.  The calls themselves are outside the
 translator's subset; kind=subexpr picks the argument expression of each call (so `seed` -> `seed + 1`
 or a constant breaks the interface lemma), and pick=listcomp_elt the per-sub-env seed `seed + idx`."""
-_ARG = r"(?!np\b|random\b|th\b|self\b|set_random_seed\b)[^()]*seed[^()]*"
+_ARG = r"(?!np\b|random\b|th\b|self\.action_space\b|self\.env\b|set_random_seed\b)[^()]*seed[^()]*"
+# in BaseAlgorithm.set_random_seed the parameter `seed` and the attribute `self.seed` (the constructor's seed) are
+# DISTINCT inputs: passing self.seed where seed is meant must break the interface lemma
+_BI = dict(inputs=[("seed", "Z"), ("model_seed", "Z")], subst={"self.seed": "model_seed"})
 _U = "stable_baselines3/common/utils.py"
 _B = "stable_baselines3/common/base_class.py"
 SPECS = [
@@ -10,7 +13,7 @@ SPECS = [
     dict(name="seed_py_arg", file=_U, qual="set_random_seed", start=r"^random\.seed\(", end=None, kind="subexpr", pick=_ARG, ret="Z", inputs=[("seed", "Z")]),
     dict(name="seed_np_arg", file=_U, qual="set_random_seed", start=r"^np\.random\.seed\(", end=None, kind="subexpr", pick=_ARG, ret="Z", inputs=[("seed", "Z")]),
     dict(name="seed_torch_arg", file=_U, qual="set_random_seed", start=r"^th\.manual_seed\(", end=None, kind="subexpr", pick=_ARG, ret="Z", inputs=[("seed", "Z")]),
-    dict(name="seed_global_arg", file=_B, qual="BaseAlgorithm.set_random_seed", start=r"^set_random_seed\(", end=None, kind="subexpr", pick=_ARG, ret="Z", inputs=[("seed", "Z")]),
-    dict(name="seed_aspace_arg", file=_B, qual="BaseAlgorithm.set_random_seed", start=r"^self\.action_space\.seed\(", end=None, kind="subexpr", pick=_ARG, ret="Z", inputs=[("seed", "Z")]),
-    dict(name="seed_env_arg", file=_B, qual="BaseAlgorithm.set_random_seed", start=r"^self\.env\.seed\(", end=None, kind="subexpr", pick=_ARG, ret="Z", inputs=[("seed", "Z")]),
+    dict(name="seed_global_arg", file=_B, qual="BaseAlgorithm.set_random_seed", start=r"^set_random_seed\(", end=None, kind="subexpr", pick=_ARG, ret="Z", **_BI),
+    dict(name="seed_aspace_arg", file=_B, qual="BaseAlgorithm.set_random_seed", start=r"^self\.action_space\.seed\(", end=None, kind="subexpr", pick=_ARG, ret="Z", **_BI),
+    dict(name="seed_env_arg", file=_B, qual="BaseAlgorithm.set_random_seed", start=r"^self\.env\.seed\(", end=None, kind="subexpr", pick=_ARG, ret="Z", **_BI),
 ]
